@@ -350,7 +350,7 @@ def check_c25(rep, thorough):
     if st:
         _replay_all(rep, st, "C25", "c25_double", ["base", "DoubleSpin", "Reorder"], sample_every=10, on_sample=on_sample)
     socs = [("c25_soc", dict(NWS="{1}", MAXHOPS=1, KDIRS=2, ANGM="{1, 3}", ANGN="{0, 1, 2}", ALS="{2}", NSPINS="{1, 2}")),
-            ("c25_soc_2", dict(NWS="{2}", MAXHOPS=0, KDIRS=1, ANGM="{1}", ANGN="{0, 1}", ALS="{1}", NSPINS="{1, 2}"))] if thorough else \
+            ("c25_soc_2", dict(NWS="{2}", MAXHOPS=0, MAXHOPS2=0, KDIRS=1, ANGM="{1}", ANGN="{0, 1}", ALS="{1}", NSPINS="{1, 2}"))] if thorough else \
            [("c25_soc", dict(NWS="{1}", MAXHOPS=0, KDIRS=1, ANGM="{1}", ANGN="{1}", ALS="{1}", NSPINS="{1, 2}"))]
     for name, kw in socs:
         st = O.run_ops(rep, name, w, OPS='{"MakeSOC", "SetSOC", "ToPlainR"}', MAXLEN=3, NEPS=1, NCEN=1, MAXSOC=1, **kw)
@@ -391,10 +391,11 @@ def check_c25(rep, thorough):
             raise MachineryError(f"c25_pauli: {npa} states")
         rep.part("c25_pauli_code", axes=npa, max_defect_of_the_codes_matrices=maxdefect, tolerance=1e-12,
                  information_equal_to_the_specifications_choice=dict(get_pauli_rotated=same_p, get_C_ss=same_c))
-    st0 = O.run_tlc("MC_SysAlgPauli.tla", pcfg(["UnrotatedSpinAlongAxis"]), "c25_pauli_v0", workers=2, timeout=600)
-    if not st0.get("violation"):
-        raise MachineryError("sensitivity self-test failed: unrotated Pauli matrices accepted")
-    rep.part("c25_pauli_unrotated", sensitivity_violation=st0["violation"][1])
+    if thorough:                                                  # quick keeps one sensitivity self-test (the block order of double_spin)
+        st0 = O.run_tlc("MC_SysAlgPauli.tla", pcfg(["UnrotatedSpinAlongAxis"]), "c25_pauli_v0", workers=2, timeout=600)
+        if not st0.get("violation"):
+            raise MachineryError("sensitivity self-test failed: unrotated Pauli matrices accepted")
+        rep.part("c25_pauli_unrotated", sensitivity_violation=st0["violation"][1])
     rep.part("numeric_exact_inputs", **numeric, tolerance=1e-8)
 
     # ---- code -> spec
